@@ -19,6 +19,42 @@ theorem stampOf_set (es : List String) (s : Nat) (old : List (String × Nat)) (e
     · have hx' : ¬ e = x := fun h => hx h.symm
       simp [hx, hx', ih]
 
+theorem putAll_facts : ∀ (f : Nat) (es : List String),
+    (∀ e ∈ (putAll f es).1, e ∈ (putAll f es).2.1) ∧
+    ((putAll f es).2.2.2 = true → (putAll f es).1 = es ∧ (putAll f es).2.1 = es) := by
+  intro f es
+  induction es generalizing f with
+  | nil => cases f <;> simp [putAll]
+  | cons e es ih =>
+    cases f with
+    | zero =>
+      obtain ⟨i1, i2⟩ := ih 0
+      simp only [putAll]
+      refine ⟨?_, ?_⟩
+      · intro x hx
+        simp only [List.mem_cons] at hx ⊢
+        rcases hx with hx | hx
+        · exact Or.inl hx
+        · exact Or.inr (i1 x hx)
+      · intro hok
+        obtain ⟨j1, j2⟩ := i2 hok
+        simp [j1, j2]
+    | succ g => simp [putAll]
+
+theorem delAll_sub : ∀ (f : Nat) (l : List String), ∀ e ∈ (delAll f l).1, e ∈ l := by
+  intro f l
+  induction l generalizing f with
+  | nil => intro e he; cases f <;> simp [delAll] at he
+  | cons x xs ih =>
+    intro e he
+    cases f with
+    | zero =>
+      simp only [delAll, List.mem_cons] at he ⊢
+      rcases he with he | he
+      · exact Or.inl he
+      · exact Or.inr (ih 0 e he)
+    | succ g => simp [delAll] at he
+
 /-- Invariant of the stamped mode. -/
 structure Inv (st : St) : Prop where
   eps : st.cur.ma = false → ∀ e ∈ st.cur.eps, e ∈ st.managed ∧
@@ -28,67 +64,95 @@ structure Inv (st : St) : Prop where
 
 theorem inv_init : Inv {} := ⟨by intro _ e he; simp at he, by intro h; simp at h, by intro j hj; simp at hj⟩
 
+/-- jobs appended by a successful update carry the new serial -/
+theorem newJobs_serial {st : St} {prev : Req} {nm : Bool} {toRemove : List String} {j : Job}
+    (hj : j ∈ (if prev.ma && !nm then [(⟨st.now + ttl, st.serial + 1, true, []⟩ : Job)] else []) ++
+      (if toRemove.isEmpty then [] else [(⟨st.now + ttl, st.serial + 1, false, toRemove⟩ : Job)])) :
+    j.serial = st.serial + 1 ∧ (j.global = false → j.eps = toRemove) ∧ (j.global = true → nm = false) := by
+  simp only [List.mem_append] at hj
+  rcases hj with hj | hj
+  · split at hj
+    · rename_i hc
+      simp only [List.mem_singleton] at hj
+      subst hj
+      simp only [Bool.and_eq_true, Bool.not_eq_true'] at hc
+      exact ⟨rfl, by intro h; simp at h, fun _ => hc.2⟩
+    · simp at hj
+  · split at hj
+    · simp at hj
+    · simp only [List.mem_singleton] at hj
+      subst hj
+      exact ⟨rfl, fun _ => rfl, by intro h; simp at h⟩
+
 theorem inv_reload (st : St) (new : Req) (h : Inv st) : Inv (reload .stamped st new) := by
   unfold reload
+  simp only [Bool.false_eq_true, if_false]
   by_cases hma : new.ma = true
   · simp only [hma, if_true]
-    refine ⟨by intro hc; simp [hma] at hc, ?_, ?_⟩
-    · intro _
-      refine ⟨rfl, ?_⟩
-      intro j hj hg
-      simp only [Bool.not_true, Bool.and_false, Bool.false_eq_true, if_false, List.append_nil,
-        List.mem_append] at hj
-      rcases hj with hj | hj
-      · exact Nat.lt_succ_of_le (h.ser j hj)
-      · split at hj
-        · simp at hj
-        · simp only [List.mem_singleton] at hj
-          subst hj
-          simp at hg
-    · intro j hj
-      simp only [Bool.not_true, Bool.and_false, Bool.false_eq_true, if_false, List.append_nil,
-        List.mem_append] at hj
-      rcases hj with hj | hj
-      · exact Nat.le_succ_of_le (h.ser j hj)
-      · split at hj
-        · simp at hj
-        · simp only [List.mem_singleton] at hj
-          subst hj
+    cases hf : st.failPut with
+    | succ f =>
+      -- PUT /manage_all refused: nothing is published
+      refine ⟨h.eps, ?_, ?_⟩
+      · intro hc
+        obtain ⟨ha, hj⟩ := h.all hc
+        exact ⟨ha, fun j hjm hg => Nat.lt_succ_of_le (h.ser j hjm)⟩
+      · intro j hjm; exact Nat.le_succ_of_le (h.ser j hjm)
+    | zero =>
+      refine ⟨by intro hc; simp [hma] at hc, ?_, ?_⟩
+      · intro _
+        refine ⟨rfl, ?_⟩
+        intro j hj hg
+        simp only [List.append_assoc, List.mem_append] at hj
+        rcases hj with hj | hj
+        · exact Nat.lt_succ_of_le (h.ser j hj)
+        · have := (newJobs_serial (st := st) (prev := st.cur) (List.mem_append.mpr hj)).2.2 hg
+          cases this
+      · intro j hj
+        simp only [List.append_assoc, List.mem_append] at hj
+        rcases hj with hj | hj
+        · exact Nat.le_succ_of_le (h.ser j hj)
+        · rw [(newJobs_serial (st := st) (prev := st.cur) (List.mem_append.mpr hj)).1]
           exact Nat.le_refl _
   · have hma' : new.ma = false := by simpa using hma
     simp only [hma', Bool.false_eq_true, if_false]
-    refine ⟨?_, by intro hc; simp [hma'] at hc, ?_⟩
-    · intro _ e he
-      refine ⟨by simp [he], ?_⟩
-      intro j hj hg hej
-      rw [stampOf_set, if_pos he]
-      simp only [List.mem_append] at hj
-      rcases hj with (hj | hj) | hj
-      · exact Nat.lt_succ_of_le (h.ser j hj)
-      · split at hj
-        · simp only [List.mem_singleton] at hj
-          subst hj
-          simp at hg
-        · simp at hj
-      · split at hj
-        · simp at hj
-        · simp only [List.mem_singleton] at hj
-          subst hj
+    obtain ⟨p1, p2⟩ := putAll_facts st.failPut new.eps
+    by_cases hok : (putAll st.failPut new.eps).2.2.2 = true
+    · obtain ⟨q1, q2⟩ := p2 hok
+      simp only [hok, if_true]
+      refine ⟨?_, by intro hc; simp [hma'] at hc, ?_⟩
+      · intro _ e he
+        refine ⟨by simp [q1, he], ?_⟩
+        intro j hj hg hej
+        rw [stampOf_set, q2, if_pos he]
+        simp only [List.append_assoc, List.mem_append] at hj
+        rcases hj with hj | hj
+        · exact Nat.lt_succ_of_le (h.ser j hj)
+        · obtain ⟨_, n2, _⟩ := newJobs_serial (st := st) (prev := st.cur) (List.mem_append.mpr hj)
+          rw [n2 hg] at hej
           simp only [List.mem_filter, Bool.not_eq_true', List.contains_eq_mem, decide_eq_false_iff_not] at hej
           exact absurd he hej.2
-    · intro j hj
-      simp only [List.mem_append] at hj
-      rcases hj with (hj | hj) | hj
-      · exact Nat.le_succ_of_le (h.ser j hj)
-      · split at hj
-        · simp only [List.mem_singleton] at hj; subst hj; exact Nat.le_refl _
-        · simp at hj
-      · split at hj
-        · simp at hj
-        · simp only [List.mem_singleton] at hj; subst hj; exact Nat.le_refl _
+      · intro j hj
+        simp only [List.append_assoc, List.mem_append] at hj
+        rcases hj with hj | hj
+        · exact Nat.le_succ_of_le (h.ser j hj)
+        · rw [(newJobs_serial (st := st) (prev := st.cur) (List.mem_append.mpr hj)).1]
+          exact Nat.le_refl _
+    · -- a PUT was refused: what went through stays registered, the OLD policies stay in force
+      simp only [hok, Bool.false_eq_true, if_false]
+      refine ⟨?_, ?_, ?_⟩
+      · intro hc e he
+        obtain ⟨hm, hj⟩ := h.eps hc e he
+        refine ⟨by simp [hm], ?_⟩
+        intro j hjm hg hej
+        rw [stampOf_set]
+        split
+        · exact Nat.lt_succ_of_le (h.ser j hjm)
+        · exact hj j hjm hg hej
+      · exact h.all
+      · intro j hjm; exact Nat.le_succ_of_le (h.ser j hjm)
 
 theorem inv_fire (st : St) (j : Job) (hj : j ∈ st.jobs) (h : Inv st) :
-    Inv (fire .stamped st j) ∧ (fire .stamped st j).jobs = st.jobs := by
+    Inv (fire .stamped st j) ∧ (fire .stamped st j).jobs = st.jobs ∧ (fire .stamped st j).cur = st.cur := by
   unfold fire
   by_cases hg : j.global = true
   · simp only [hg, if_true]
@@ -98,23 +162,22 @@ theorem inv_fire (st : St) (j : Job) (hj : j ∈ st.jobs) (h : Inv st) :
       exact h
     · have hc : st.cur.ma = false := by simpa using hcma
       split
-      · exact ⟨h, by first | rfl | trivial⟩
-      · exact ⟨⟨h.eps, by intro hx; simp [hc] at hx, h.ser⟩, by first | rfl | trivial⟩
+      · exact ⟨h, rfl, rfl⟩
+      · split
+        · exact ⟨⟨h.eps, h.all, h.ser⟩, rfl, rfl⟩
+        · exact ⟨⟨h.eps, by intro hx; simp [hc] at hx, h.ser⟩, rfl, rfl⟩
   · have hg' : j.global = false := by simpa using hg
     simp only [hg', Bool.false_eq_true, if_false]
-    refine ⟨⟨?_, h.all, h.ser⟩, trivial⟩
+    refine ⟨⟨?_, h.all, h.ser⟩, trivial, trivial⟩
     intro hc e he
     obtain ⟨hm, hjobs⟩ := h.eps hc e he
     refine ⟨?_, hjobs⟩
-    simp only [List.mem_filter, hm, true_and, Bool.not_eq_true', Bool.and_eq_false_iff, Bool.or_eq_true,
-      bne_iff_ne, ne_eq, not_true_eq_false, false_or, decide_eq_true_eq, List.contains_eq_mem,
-      decide_eq_false_iff_not]
-    by_cases hej : e ∈ j.eps
-    · right
-      have := hjobs j hj hg' hej
-      simp
-      omega
-    · left; exact hej
+    simp only [List.mem_filter, hm, true_and, Bool.not_eq_true', List.contains_eq_mem, decide_eq_false_iff_not]
+    intro hdel
+    have hst := delAll_sub _ _ e hdel
+    simp only [List.mem_filter, bne_self_eq_false, Bool.false_or, decide_eq_true_eq] at hst
+    have := hjobs j hj hg' hst.1
+    omega
 
 theorem inv_fireAll (due : List Job) : ∀ (st : St), (∀ j ∈ due, j ∈ st.jobs) → Inv st →
     Inv (due.foldl (fire .stamped) st) ∧ (due.foldl (fire .stamped) st).jobs = st.jobs ∧
@@ -123,9 +186,7 @@ theorem inv_fireAll (due : List Job) : ∀ (st : St), (∀ j ∈ due, j ∈ st.j
   | nil => intro st _ h; exact ⟨h, rfl, rfl⟩
   | cons j js ih =>
     intro st hsub h
-    obtain ⟨h1, h2⟩ := inv_fire st j (hsub j (by simp)) h
-    have hcur : (fire .stamped st j).cur = st.cur := by
-      unfold fire; split <;> (try split) <;> rfl
+    obtain ⟨h1, h2, hcur⟩ := inv_fire st j (hsub j (by simp)) h
     obtain ⟨i1, i2, i3⟩ := ih (fire .stamped st j) (fun x hx => by rw [h2]; exact hsub x (by simp [hx])) h1
     simp only [List.foldl_cons]
     exact ⟨i1, i2.trans h2, i3.trans hcur⟩
@@ -157,6 +218,7 @@ theorem inv_run (evs : List Ev) : ∀ (st : St), Inv st → Inv (run .stamped st
     cases ev with
     | reload r => exact inv_reload st r h
     | advance d => exact inv_advance st d h
+    | fail p d => exact ⟨h.eps, h.all, h.ser⟩
 
 theorem requiredOK_of_inv (st : St) (h : Inv st) : requiredOK st.cur st.all st.managed = true := by
   unfold requiredOK
@@ -174,6 +236,7 @@ def Spaced (st : St) : List Ev → Prop
   | [] => True
   | .reload r :: evs => st.jobs = [] ∧ Spaced (reload .byString st r) evs
   | .advance d :: evs => Spaced (advance .byString st d) evs
+  | .fail p d :: evs => Spaced { st with failPut := p, failDel := d } evs
 
 structure InvS (st : St) : Prop where
   eps : st.cur.ma = false → ∀ e ∈ st.cur.eps, e ∈ st.managed ∧ ∀ j ∈ st.jobs, j.global = false → e ∉ j.eps
@@ -181,37 +244,43 @@ structure InvS (st : St) : Prop where
 
 theorem invS_init : InvS {} := ⟨by intro _ e he; simp at he, by intro h; simp at h⟩
 
-theorem invS_reload (st : St) (new : Req) (hj : st.jobs = []) : InvS (reload .byString st new) := by
+theorem invS_reload (st : St) (new : Req) (hj : st.jobs = []) (h : InvS st) : InvS (reload .byString st new) := by
   unfold reload
+  simp only [Bool.false_eq_true, if_false]
   by_cases hma : new.ma = true
   · simp only [hma, if_true, hj]
-    refine ⟨by intro hc; simp [hma] at hc, ?_⟩
-    intro _
-    refine ⟨rfl, ?_⟩
-    intro j hjm
-    simp only [Bool.not_true, Bool.and_false, Bool.false_eq_true, if_false, List.append_nil, List.nil_append] at hjm
-    split at hjm
-    · simp at hjm
-    · simp only [List.mem_singleton] at hjm; subst hjm; rfl
+    cases hf : st.failPut with
+    | succ f => exact ⟨by simpa [hj] using h.eps, by intro hc; exact ⟨(h.all hc).1, by simp⟩⟩
+    | zero =>
+      refine ⟨by intro hc; simp [hma] at hc, ?_⟩
+      intro _
+      refine ⟨rfl, ?_⟩
+      intro j hjm
+      simp only [List.nil_append] at hjm
+      by_cases hg : j.global = true
+      · have := (newJobs_serial (st := st) (prev := st.cur) hjm).2.2 hg
+        cases this
+      · simpa using hg
   · have hma' : new.ma = false := by simpa using hma
     simp only [hma', Bool.false_eq_true, if_false, hj]
-    refine ⟨?_, by intro hc; simp [hma'] at hc⟩
-    intro _ e he
-    refine ⟨by simp [he], ?_⟩
-    intro j hjm hg
-    simp only [List.nil_append, List.mem_append] at hjm
-    rcases hjm with hjm | hjm
-    · split at hjm
-      · simp only [List.mem_singleton] at hjm; subst hjm; simp at hg
-      · simp at hjm
-    · split at hjm
-      · simp at hjm
-      · simp only [List.mem_singleton] at hjm
-        subst hjm
-        simp only [List.mem_filter, Bool.not_eq_true', List.contains_eq_mem, decide_eq_false_iff_not, not_and,
-          Classical.not_not]
-        intro _
-        exact he
+    obtain ⟨_, p2⟩ := putAll_facts st.failPut new.eps
+    by_cases hok : (putAll st.failPut new.eps).2.2.2 = true
+    · obtain ⟨q1, _⟩ := p2 hok
+      simp only [hok, if_true]
+      refine ⟨?_, by intro hc; simp [hma'] at hc⟩
+      intro _ e he
+      refine ⟨by simp [q1, he], ?_⟩
+      intro j hjm hg
+      simp only [List.nil_append] at hjm
+      rw [(newJobs_serial (st := st) (prev := st.cur) hjm).2.1 hg]
+      simp only [List.mem_filter, Bool.not_eq_true', List.contains_eq_mem, decide_eq_false_iff_not, not_and,
+        Classical.not_not]
+      intro _
+      exact he
+    · simp only [hok, Bool.false_eq_true, if_false]
+      refine ⟨?_, by intro hc; exact ⟨(h.all hc).1, by simp⟩⟩
+      intro hc e he
+      exact ⟨by simp [(h.eps hc e he).1], by simp⟩
 
 theorem invS_fire (st : St) (j : Job) (hj : j ∈ st.jobs) (h : InvS st) :
     InvS (fire .byString st j) ∧ (fire .byString st j).jobs = st.jobs ∧ (fire .byString st j).cur = st.cur := by
@@ -225,15 +294,20 @@ theorem invS_fire (st : St) (j : Job) (hj : j ∈ st.jobs) (h : InvS st) :
       rw [hg] at this
       cases this
     · have hc : st.cur.ma = false := by simpa using hcma
-      exact ⟨⟨h.eps, by intro hx; simp [hc] at hx⟩, rfl, rfl⟩
+      split
+      · exact ⟨⟨h.eps, h.all⟩, rfl, rfl⟩
+      · exact ⟨⟨h.eps, by intro hx; simp [hc] at hx⟩, rfl, rfl⟩
   · have hg' : j.global = false := by simpa using hg
     simp only [hg', Bool.false_eq_true, if_false]
     refine ⟨⟨?_, h.all⟩, trivial, trivial⟩
     intro hc e he
     obtain ⟨hm, hjobs⟩ := h.eps hc e he
     refine ⟨?_, hjobs⟩
-    have := hjobs j hj hg'
-    simp [List.mem_filter, hm, this]
+    simp only [List.mem_filter, hm, true_and, Bool.not_eq_true', List.contains_eq_mem, decide_eq_false_iff_not]
+    intro hdel
+    have hst := delAll_sub _ _ e hdel
+    simp only [List.mem_filter] at hst
+    exact hjobs j hj hg' hst.1
 
 theorem invS_fireAll (due : List Job) : ∀ (st : St), (∀ j ∈ due, j ∈ st.jobs) → InvS st →
     InvS (due.foldl (fire .byString) st) ∧ (due.foldl (fire .byString) st).jobs = st.jobs := by
@@ -264,8 +338,9 @@ theorem invS_run (evs : List Ev) : ∀ (st : St), InvS st → Spaced st evs → 
   | cons ev evs ih =>
     intro st h hs
     cases ev with
-    | reload r => exact ih _ (invS_reload st r hs.1) hs.2
+    | reload r => exact ih _ (invS_reload st r hs.1 h) hs.2
     | advance d => exact ih _ (invS_advance st d h) hs
+    | fail p d => exact ih _ ⟨h.eps, h.all⟩ hs
 
 theorem requiredOK_of_invS (st : St) (h : InvS st) : requiredOK st.cur st.all st.managed = true := by
   unfold requiredOK
